@@ -95,7 +95,7 @@ PROPS.update({
                 assumptions=STORE_ASSUME),
     "C02": dict(crate="store", title="Closing and reopening a store preserves exactly its contents, deletions included",
                 harnesses=[H("c01_shape_1", timeout=1500, rules=STORE_RULES, covers=["three rollovers"]), H("c01_shape_2", timeout=1500, rules=STORE_RULES),
-                           H("c01_shape_5", tier="thorough", timeout=1500, rules=STORE_RULES), H("c12_shape_4", timeout=1500, rules=STORE_RULES)],
+                           H("c01_shape_3", timeout=1500, rules=STORE_RULES), H("c01_shape_5", tier="thorough", timeout=1500, rules=STORE_RULES), H("c12_shape_4", tier="thorough", timeout=1500, rules=STORE_RULES)],
                 bounds={"shapes": SHAPES_NOTE + "; every shape ends with a reopen through the real rebuild_storage (scan path and hint path) and re-reads both keys", "outside": "two-digit file ids and foreign directory entries (name parsing is executed on single-digit ids only)"},
                 assumptions=STORE_ASSUME),
     "C05": dict(crate="store", title="Compaction never changes what any key reads, now or after a restart",
@@ -117,11 +117,11 @@ PROPS.update({
                 bounds={"shapes": SHAPES_NOTE + "; the monitor inside the model file system is asserted after every step: exclusive create + append by the creator only, no rename/set_len/truncate/open-for-write, ids per kind strictly above every earlier id, no data file beyond max_file_size by more than one entry", "outside": "bytes-never-change is enforced by construction of the model (appends only)"},
                 assumptions=STORE_ASSUME),
     "C19": dict(crate="store", title="Per-file live/dead accounting always matches the files' real contents",
-                harnesses=_shapes("c19", [1, 2, 3, 4, 5, 6], tier_of=lambda i: "quick" if i in (1, 2, 5) else "thorough"),
+                harnesses=_shapes("c19", [1, 2, 3, 4, 5, 6], tier_of=lambda i: "quick" if i in (1, 2, 3) else "thorough"),
                 bounds={"shapes": SHAPES_NOTE + "; after every step the real LogStatistics of every file are compared with ground truth computed by the harness from the file bytes and the real index; counter arithmetic is overflow-checked by Kani", "outside": "as C01"},
                 assumptions=STORE_ASSUME),
     "C03": dict(crate="store", title="A process crash at any instant loses no acknowledged write and corrupts nothing",
-                harnesses=_kills("c03_b", range(0, 11), quick=(1, 3, 5, 7)) + _kills("c03_c", range(4, 27), quick=(8, 10, 12, 14, 16, 18, 20)) + _kills("c03_a", range(6, 29), quick=(12, 16, 20, 24)) + _kills("c03_d", range(8, 27), quick=()),
+                harnesses=_kills("c03_b", range(0, 11), quick=(1, 3, 5, 7)) + _kills("c03_c", range(4, 27), quick=(10, 12, 14, 16, 18)) + _kills("c03_a", range(6, 29), quick=(12, 16, 20, 24)) + _kills("c03_d", range(8, 27), quick=(20, 21)),
                 bounds={"shapes": "A: two values on disk; open, del a, merge of everything, put b. B: empty directory, rollover on every write; put a, put b, del a. C: two values on disk, merge rolling over into several outputs. D: value in an older file, its tombstone in a newer one, merge of both. One harness instance per CONCRETE kill point k (the directory is snapshotted before file-system call number k); thorough spans every call of the run, quick a subset inside the merge / rollover windows; SYMBOLIC: every value byte. After the run the directory as of the kill is installed and the real rebuild_storage is run on it", "outside": "a second kill during the recovery after the first; longer workloads"},
                 assumptions=STORE_ASSUME + ["process-kill failure model: the page cache survives, the directory is exactly the effect of the prefix of calls"]),
     "C09": dict(crate="store", title="With sync=always an acknowledged write survives power loss, merges included",
